@@ -40,6 +40,7 @@ func checkC18(p *Program, r *Reporter) {
 	if parse == nil {
 		return
 	}
+	initFlagRule(p, r, parse)
 	r.Rule("E5-FLUSHED", "every successful return of Parse is decided by 'bytes are buffered' (contentEnd > 0), whose true side hands buf[:contentEnd] to the callback", 2)
 	for _, b := range parse.Blocks {
 		ret, ok := b.Instrs[len(b.Instrs)-1].(*ssa.Return)
